@@ -105,6 +105,12 @@ def tagSetLe : TagSet → TagSet → Bool
     else if ka.2 < kb.2 then true else if kb.2 < ka.2 then false
     else tagSetLe as bs
 
+/-- the outermost tag only (`tagSet[-1:]`): what the SET encoders sort by -/
+def outerKey (ts : TagSet) : TagSet :=
+  match ts.getLast? with
+  | some t => [t]
+  | none => []
+
 /-- `NamedTypes.minTagSet` of an untagged CHOICE: the smallest tag set among the alternatives
     (recursively for nested untagged CHOICEs) -/
 def Ty.minTagSet : Ty → TagSet
@@ -119,13 +125,20 @@ where
       | none => Fields.minTagSet r (some ts)
       | some a => Fields.minTagSet r (some (if tagSetLe a ts then a else ts))
 
+/-- `effectiveTagSet` of a value: its own tag set, or for an untagged CHOICE that of the selected
+    alternative (recursively) -/
+def effTags : Ty → Val → TagSet
+  | t, .choice i v =>
+    if !t.tags.isEmpty then t.tags
+    else match t.base with
+      | .choice fs => (match fs.get? i with | some (_, ti) => effTags ti v | none => [])
+      | _ => []
+  | t, _ => t.tags
+
 /-- sort key for one SET member -/
 def setKey (order : SetOrder) (t : Ty) (v : Val) : TagSet :=
   match t, order with
-  | .choice fs, .dynamic =>
-    (match v with
-     | .choice i _ => (match fs.get? i with | some (_, ti) => ti.tags | none => [])
-     | _ => [])
+  | .choice fs, .dynamic => effTags (.choice fs) v
   | .choice fs, _ => Ty.minTagSet (.choice fs)
   | t, _ => t.tags
 
@@ -196,7 +209,7 @@ def encValue (cfg : EncCfg) (o : EncOpts) : Ty → Val → Except Err (Bytes × 
        match encSetMembers cfg o ord fs vs with
        | .error e => .error e
        | .ok ms =>
-         let sorted := ms.mergeSort (fun a b => tagSetLe a.1 b.1)
+         let sorted := ms.mergeSort (fun a b => tagSetLe (outerKey a.1) (outerKey b.1))
          .ok ((sorted.map (·.2)).flatten, true))
   | .seqOf t, .seqOf vs =>
     if cfg.seqOfIfNotEmpty && o.ifNotEmpty && vs.isEmpty then .ok ([], true)
